@@ -14,7 +14,10 @@ func init() {
 	register(simple("C04", "kernel", "mm/vmm", 16))
 	register(simple("C05", "kernel", "mm/vmm", 8))
 	register(simple("C06", "kernel", "mm/vmm", 8))
-	register(simple("C07", "kernel", "mm/vmm", 4))
+	c07 := simple("C07", "kernel", "mm/vmm", 4)
+	// the allocator bootstrap is the in-tree client that maps a reservation page by page itself
+	c07.runs = append(c07.runs, runSpec{name: "pmm", pkg: "mm/pmm", test: "^TestVerifC07Pmm$", shards: 4})
+	register(c07)
 	register(&prop{id: "C08", module: "kernel", pkg: "sync", level: "exploration", perCase: 150 * time.Second, post: postLockHistories,
 		runs: []runSpec{
 			{name: "main", test: "^TestVerifC08$"},
